@@ -56,6 +56,9 @@ CHECKS = {
     "C17": ("fault_enumeration", "real SIGINT (pthread_kill) at every call index + gate/quiescence protocol deciding 'interrupt handled' logically; thread census; deadlock detector; C08/C03/C05 oracles on the post-interrupt state",
             "For each generated case every call index (start / steady-state / end position; quick tier: first, last and a seeded sample) received a real SIGINT: run raised KeyboardInterrupt, nothing started after the interrupt was proven handled, in-flight calls completed, all threads exited, observer exited once, stores repairable.",
             "CPython default SIGINT handler; Linux /proc thread states", "3/C17"),
+    "C18": ("exploration", "out-of-date oracle on epoch seconds vs the run's rebuilt set, per process time zone and datetime representation",
+            "Held on the sampled (zone, representation, instant) combinations incl. DST transition windows and real file stores: the rebuilt set equals the one computed from true instants.",
+            "naive datetimes denote local time; tz database present", "3/C18"),
     "C14": ("exploration", "event-log monitor during dry runs + differential execution of the returned physical plan vs the real run from a restored state",
             "Held on the sampled states: dry runs stamped only modified-time queries and changed nothing; executing all nodes of the returned plan alone gave the same event multiset, store contents and output as the real run.",
             "snapshot/restore of in-memory stores", "3/C14"),
